@@ -583,7 +583,12 @@ class Evaluator:
                 break
         return done + [(s, "fall", None, 0) for s in live]
 
+    max_steps = 40000
+
     def exec_stmt(self, st: ast.stmt, state: State, func: Func):
+        self._steps = getattr(self, "_steps", 0) + 1
+        if self._steps > self.max_steps:
+            raise Budget(f"step budget exceeded while evaluating {func.qname} (combinatorial number of paths)")
         line = getattr(st, "lineno", 0)
         if isinstance(st, ast.Expr):
             if isinstance(st.value, ast.Constant):
